@@ -124,7 +124,7 @@ def SeekTy.min : SeekTy → Int
 /-- `ChaChaAny::try_seek::<T>(pos)`: `Ok(())`/`Err(LoopError)`; the value is an in-range `T`. -/
 def Cipher.trySeek (M : Mach) (c : Cipher) (pos : Int) : Out (Cipher × Bool) :=
   -- pos.try_into::<u64>()
-  if pos < 0 ∨ pos ≥ 2 ^ 64 then .ok (c, false) else
+  if pos < 0 ∨ pos.toNat ≥ 2 ^ 64 then .ok (c, false) else
   let ct := pos.toNat
   match c.v.layout with
   | .ietf =>
